@@ -477,7 +477,11 @@ def evaluate__sum(self: XPathFunction, context: ta.ContextType = None) -> ta.One
     else:
         try:
             numbers = [self.number_value(x) for x in values]
-            result = sum(numbers[1:], start=numbers[0])  # no integer 0: keeps a negative zero
+            # $c[1] + fn:sum(subsequence($c, 2)): every addition is an xs:double addition
+            # (the builtin sum() compensates the rounding errors of floats)
+            result = numbers[-1]
+            for number in reversed(numbers[:-1]):
+                result = number + result
         except TypeError:
             if self.parser.version == '1.0':
                 return math.nan
